@@ -203,6 +203,9 @@ impl PatchChain {
                                         entry.priority,
                                         e
                                     );
+                                    // A damaged patch must not be skipped silently: the caller
+                                    // would receive an older version as if it were current
+                                    return Err(e);
                                 }
                             }
                         }
@@ -214,6 +217,7 @@ impl PatchChain {
                                 entry.priority,
                                 e
                             );
+                            return Err(e);
                         }
                     }
                 } else if base_data.is_none() {
